@@ -272,5 +272,106 @@ class ExecutorSchedules(Contract):
                  info=None if ok else sorted(map(str, comm.posted)))
 
 
+    def replay(self, inst, clause, model, info):
+        return EXEC_REPLAY.format(prog=inst["prog"], size=inst["size"],
+                                  rank=inst["rank"])
+
+
 def _t(b):
     return getattr(b, "t", b)
+
+
+def native_explore(prog, size, rank, max_runs=20000):
+    """Replay: run the real executor natively for one rank under every
+    permitted arrival schedule (DFS over decision vectors); returns the first
+    failure (schedule, what) or None."""
+    import sys
+    import types
+
+    from pytato.distributed.execute import execute_distributed_partition
+    S = setup(prog, size, "chain")
+    import mpi4py.MPI as MPI
+    import pyopencl.array as cl_array
+    partition = S["num"][rank]
+    worklist = [[]]
+    runs = 0
+    real_to_device = cl_array.to_device
+    cl_array.to_device = lambda queue, buf, allocator=None: np.array(
+        buf, copy=True)
+    try:
+        while worklist and runs < max_runs:
+            dec = worklist.pop()
+            runs += 1
+            taken = []
+            comm = ExecComm(rank, size, S)
+            trace = []
+
+            def choose(dec=dec, taken=taken):
+                k = len(taken)
+                if k < len(dec):
+                    c = dec[k]
+                else:
+                    c = True
+                    worklist.append([*taken, False])
+                taken.append(c)
+                return c
+
+            def waitsome(reqs, comm=comm, trace=trace, choose=choose):
+                can = [(i, q) for i, q in enumerate(reqs)
+                       if all(s in comm.posted
+                              for s in S["local_sends_before"][q.key])]
+                if not can:
+                    raise WouldBlockForever(str([q.key for q in reqs]))
+                chosen = []
+                for i, q in can:
+                    last = not chosen and (i, q) == can[-1]
+                    if last or choose():
+                        chosen.append(i)
+                        q.buf[...] = S["payload"][q.key]
+                trace.append([reqs[i].key for i in chosen])
+                return chosen
+            MPI.Request = types.SimpleNamespace(Waitsome=waitsome)
+
+            def mk_prg(pid, part):
+                def prg(queue, allocator=None, **inputs):
+                    if set(inputs) != set(part.all_input_names()):
+                        raise KeyError(f"part {pid} inputs {sorted(inputs)}")
+                    return None, {
+                        nm: eval_array(partition.name_to_output[nm],
+                                       dict(inputs))
+                        for nm in part.output_names}
+                return prg
+            prgs = {pid: mk_prg(pid, part)
+                    for pid, part in partition.parts.items()}
+            try:
+                out = execute_distributed_partition(
+                    partition, prgs, None, comm,
+                    input_args={"x": S["xs"][rank]})
+            except Exception as e:  # noqa: BLE001
+                return trace, f"{type(e).__name__}: {e}"
+            exp = S["expected_out"][rank]
+            if set(out) != set(exp) or not all(
+                    np.allclose(np.asarray(out[k]), exp[k]) for k in exp):
+                return trace, "outputs differ from the unpartitioned " \
+                    "evaluation"
+            mine = {k: v for k, v in S["payload"].items() if k[0] == rank}
+            if set(comm.posted) != set(mine) or not all(
+                    np.allclose(comm.posted[k], mine[k]) for k in mine):
+                return trace, "a send carries the wrong data"
+    finally:
+        cl_array.to_device = real_to_device
+    del sys
+    return None
+
+
+EXEC_REPLAY = '''
+import sys
+sys.path.insert(0, "/verif"); sys.path.append("/verif/.deps")
+from pyvc.replaylib import reproduced, not_reproduced
+from contracts.c08_executor import native_explore
+r = native_explore({prog!r}, {size!r}, {rank!r})
+if r is not None:
+    reproduced(f"rank {rank} of program '{prog}' on {size} ranks, messages "
+               f"arriving in the order {{r[0]}}: {{r[1]}}")
+not_reproduced("every permitted arrival schedule runs to the right outputs")
+'''
